@@ -6,7 +6,7 @@ import time
 from . import runner
 
 MAX_REPLAYS_PER_TASK = 3
-MAX_PROBES_PER_TASK = 6
+MAX_PROBES_PER_TASK = 10
 
 
 def run_symx_check(mod, tier, seed, only=None, procs=None, extra_cov=None, pre_verdicts=None):
